@@ -225,7 +225,7 @@ func (n *tNode) Prepare() {
 		eval.ReportError("cannot prepare %s", n.w.newToken(phPrepare, n.spec.ID, "prepare"))
 	}
 }
-func (n *tNode) Finalize()        { n.w.log = append(n.w.log, event{phFinalize, n.root.spec.Name, n.spec.ID}) }
+func (n *tNode) Finalize() { n.w.log = append(n.w.log, event{phFinalize, n.root.spec.Name, n.spec.ID}) }
 func (n *tNode) Validate() error {
 	n.w.log = append(n.w.log, event{phValidate, n.root.spec.Name, n.spec.ID})
 	return n.w.validationResult(n.wrapped, n.spec.ID, n.spec.VKind, n.spec.VN)
